@@ -114,7 +114,7 @@ def classify_query(ctx, sc, py):
     for s in sc["path"]:
         ctx.count("step:" + s[0])
     js = json.dumps(sc["path"])
-    for kind in ("below", "below2", "nb", "tab", "has", "not", "all", "any"):
+    for kind in ("below", "below2", "nb", "nb2", "tab", "has", "not", "all", "any"):
         if '["%s"' % kind in js:
             ctx.count("pred:" + kind)
     if py != "nosrc":
@@ -464,7 +464,8 @@ register("C18", extra=[families.MutateFamily("descr", 1500, 60000, "outcome and 
 register("C19", extra=[families.MutateFamily("listview", 1500, 60000, "results and object graph of list-view operation histories")],
          rule="histories of len / [i] / [i]= / del [i] / in / append / pop(i) / iteration / live iterators interleaved with mutations / keep_all / remove_all through the view of a list-typed attribute (identity, negating and boxing converters; empty lists; negative and out-of-range indices; predicates keeping none / some / all); compared: results and the document's own list object in the whole object graph")
 
-register("C15", oracles=[oracles.reuse_oracle, oracles.spelling_oracle, oracles.interrupted_use_oracle], extra=[families.BuilderFamily("dag", 1500, 60000, "renderings and selections of expression derivation DAGs")],
+register("C15", streams=[Q("filter", pred="has", apis=["find_matches"], src=False, guarded=0.2)], n_quick=2500, n_thorough=60000,
+         oracles=[oracles.reuse_oracle, oracles.spelling_oracle, oracles.interrupted_use_oracle, oracles.snapshot_oracle], extra=[families.BuilderFamily("dag", 1500, 60000, "renderings and selections of expression derivation DAGs")],
          generated=["Reserved"],
          rule="derivation DAGs over path / pathd: attribute and item steps of every kind (incl. reserved attribute names, odd builder attributes, unsupported indices), siblings derived before and after their shared prefix was rendered or evaluated, equivalent spellings derived late from one prefix; compared: str()/repr() of every expression, results of evaluating it on random documents (keys with '-' and '_'), errors")
 
